@@ -12,6 +12,7 @@ import (
 	databasev1 "github.com/apache/skywalking-banyandb/api/proto/banyandb/database/v1"
 	measurev1 "github.com/apache/skywalking-banyandb/api/proto/banyandb/measure/v1"
 	streamv1 "github.com/apache/skywalking-banyandb/api/proto/banyandb/stream/v1"
+	tracev1 "github.com/apache/skywalking-banyandb/api/proto/banyandb/trace/v1"
 	"github.com/apache/skywalking-banyandb/banyand/dquery"
 	"github.com/apache/skywalking-banyandb/banyand/internal/verif/simmeta"
 	"github.com/apache/skywalking-banyandb/banyand/internal/verif/simnet"
@@ -260,6 +261,18 @@ func (c *Cluster) WriteStream(reqs []*streamv1.WriteRequest) ([]*streamv1.WriteR
 // QueryStream runs a stream query through the liaison front-end (distributed plan).
 func (c *Cluster) QueryStream(r *streamv1.QueryRequest) (*streamv1.QueryResponse, error) {
 	return c.FE.StreamQuery(c.Ctx, r)
+}
+
+// WriteTrace sends one client write stream through the liaison front-end.
+func (c *Cluster) WriteTrace(reqs []*tracev1.WriteRequest) ([]*tracev1.WriteResponse, error) {
+	b := &bidi[tracev1.WriteRequest, tracev1.WriteResponse]{ctx: c.Ctx, in: reqs}
+	err := c.FE.TraceWrite(b)
+	return b.out, err
+}
+
+// QueryTrace runs a trace query through the liaison front-end (distributed plan).
+func (c *Cluster) QueryTrace(r *tracev1.QueryRequest) (*tracev1.QueryResponse, error) {
+	return c.FE.TraceQuery(c.Ctx, r)
 }
 
 // ShardsOnNodes OBSERVES, per data node, which shards of a group hold a directory on that node's disk
